@@ -1,12 +1,15 @@
 #!/bin/bash
-# tools/try_patch.sh <patch.diff> <ID> [tier]  -- apply a patch to /repo, run one check, undo the patch
+# tools/try_patch.sh <patch.diff> <ID> [tier]  -- apply a patch to /repo, run one check, undo the patch.
+# The evidence file of the clean tree is preserved (a mutant run must never be committed as evidence).
 set -u
 patch=$(readlink -f "$1"); id=$2; tier=${3:-quick}
 cd /repo || exit 3
 if ! git diff --quiet; then echo "/repo has uncommitted changes"; exit 3; fi
 git apply "$patch" || { echo "patch does not apply"; exit 3; }
 cd /verif
+[ -f evidence/$id.json ] && cp evidence/$id.json /tmp/evidence_$id.keep
 ./check "$id" "$tier"; rc=$?
 git -C /repo checkout -- .
+[ -f /tmp/evidence_$id.keep ] && mv /tmp/evidence_$id.keep evidence/$id.json
 echo "exit=$rc"
 exit $rc
